@@ -16,6 +16,8 @@ import os
 import time
 
 import common
+import c02_ext as X
+import c02_proto as P
 import c02_gen as G
 import c02_table
 
@@ -463,12 +465,32 @@ def run(res):
     allp = allp[:cap]
     for i in range(0, len(allp), BATCH):
       batches.append(("ex%d" % (i // BATCH), hier, allp[i:i + BATCH]))
+  # --- extension legs (c) argument-site binding, (d) assignment-site stores: own PRNG stream
+  xr = common.rng(res.seed, "c02ext")
+  x_arg = X.argsite_cases(xr, 900 if thorough else 160)
+  x_st = X.store_cases(xr, 900 if thorough else 160)
+  x_progs = X.build_programs(x_arg, x_st)
+  # --- extension leg (a) structural protocols: builtin world regenerated from the loaded stubs (fail closed)
+  pr = common.rng(res.seed, "c02proto")
+  p_batches, p_progs, p_bw = [], [], None
+  try:
+    p_bw = P.build_builtin_world()
+    res.obligation("translate:loaded stubs->protocol world (Match/Proto.v)", True)
+  except Exception as e:   # pylint: disable=broad-except
+    res.obligation("translate:loaded stubs->protocol world (Match/Proto.v)", False, repr(e)[:400])
+  if p_bw:
+    for b in range(20 if thorough else 3):
+      uw = P.UserWorld.random(pr)
+      p_batches.append((uw, P.gen_pairs(pr, uw, 40)))
+    p_progs = [("proto%d" % i,) + P.build_program(uw, pairs) for i, (uw, pairs) in enumerate(p_batches)]
   # --- real pytype
   t0 = time.time()
   nproc = 4
   ctx = multiprocessing.get_context("fork")
   with ctx.Pool(nproc, initializer=_init_worker) as pool:
     jobs = [(h.to_json(), p) for _, h, p in batches]
+    async_ext = pool.map_async(X.work, x_progs, chunksize=1)
+    async_proto = pool.map_async(P.work, [(t, src) for t, src, _ in p_progs], chunksize=1)
     async_impl = pool.map_async(_work, jobs, chunksize=1)
     # reveal_type sample for abs
     rv_hier = G.Hier.default()
@@ -486,8 +508,13 @@ def run(res):
     per_file = 8
     for i in range(0, len(batches), per_file):
       files.append(("c02_cases_%d" % (i // per_file), cases_v([(h, p) for _, h, p in batches[i:i + per_file]])))
-    coq_out = common.run_cases_parallel(files, timeout=1200) if files else {}
+    x_files = [("c02_ext", X.coq_body(x_arg, x_st))]
+    if p_batches:
+      x_files.append(("c02_proto", P.coq_body(p_bw, p_batches)))
+    coq_out = common.run_cases_parallel(x_files + files, timeout=1200)
     t_coq = time.time() - t1
+    x_impl = async_ext.get()
+    p_impl = async_proto.get()
     impl = async_impl.get()
     rv_out = async_rv.get()
   t_impl = time.time() - t0
@@ -629,6 +656,16 @@ def run(res):
   res.obligation("generated-programs-clean", n_unexp == 0, "%d unexpected errors" % n_unexp)
   res.obligation("fragment-wf(all pairs inside the fragment are wf, table_ok holds)", n_wf_bad == 0,
                  "%d pairs" % n_wf_bad)
+  # --- extension legs: three-way comparison
+  x_ok, x_out = coq_out["c02_ext"]
+  if not x_ok:
+    res.obligation("model-run:c02_ext", False, x_out[-1500:])
+  X.evaluate(res, x_arg, x_st, x_progs, x_impl, common.parse_coq_eval(x_out) if x_ok else [])
+  if p_batches:
+    p_ok, p_out = coq_out["c02_proto"]
+    if not p_ok:
+      res.obligation("model-run:c02_proto", False, p_out[-1500:])
+    P.evaluate(res, p_bw, p_batches, p_progs, p_impl, common.parse_coq_eval(p_out) if p_ok else [])
   # --- abs vs reveal_type
   n_rv = n_rv_bad = 0
   k = 0
@@ -674,6 +711,8 @@ def common_coqchk(pid):
 def replay(res, path):
   common.bootstrap_pytype()
   d = json.load(open(path))["replay"]
+  if d.get("leg") in ("argsite", "store", "proto"):
+    return X.replay(d)
   hier = G.Hier.from_json(d["hier"])
   t, v, s = _tup(d["ty"]), _tup(d["val"]), d["site"]
   resmap, unexpected = G.analyse_pairs_robust(hier, [(t, v)])
